@@ -38,7 +38,8 @@ def cases(rng, tier):
                 else:
                     w = G.rand_opinion(rng, n, den, kind)
                 k = rng.choice([1, 1, 2, 3, 4])
-                ts = [rng.choice([Fr(0), Fr(1), Fr(1, 2), Fr(rng.randint(0, den), den), rng.random()]) for _ in range(k)]
+                ts = [rng.choice([Fr(0), Fr(1), Fr(1, 2), Fr(rng.randint(0, den), den), rng.random(),
+                                  G.near_one(rng, fmt), rng.choice(G.TINY[fmt]), Fr(1, 64)]) for _ in range(k)]
                 fam = rng.choice(["M", "D", "N"])
                 var = fam + "." + rng.choice(["o", "r", "o.s"])
                 if k == 1 and rng.random() < 0.5:
